@@ -16,9 +16,72 @@ import (
 	"os"
 	"strings"
 
+	"github.com/glycerine/zygomys/v9/zygo"
 	"verif/harness/lib"
 	. "verif/harness/refgen"
 )
+
+// Sep separates the texts of a history: each is a separate EvalString on one interpreter.
+// (It is a comment, so the joined text is still legal source.)
+const Sep = "\n//--next-evaluation--\n"
+
+// runSteps evaluates the texts one after the other in ONE fresh interpreter and renders the
+// observable of the whole history: the value / error of the last evaluation reached and the
+// trace of all of them (format of refgen.Runner.RunSource).
+func runSteps(texts []string, failAt int) string {
+	env := zygo.NewZlisp()
+	env.StandardSetup()
+	defer env.Close()
+	var trace []string
+	failCtr := 0
+	env.AddFunction("trace", func(env *zygo.Zlisp, name string, args []zygo.Sexp) (zygo.Sexp, error) {
+		parts := make([]string, len(args))
+		for i, a := range args {
+			parts[i] = RenderValue(a, SnapDepth)
+		}
+		trace = append(trace, strings.Join(parts, ","))
+		if len(args) == 0 {
+			return zygo.SexpNull, nil
+		}
+		return args[0], nil
+	})
+	env.AddFunction("failk", func(env *zygo.Zlisp, name string, args []zygo.Sexp) (zygo.Sexp, error) {
+		failCtr++
+		if failCtr == failAt {
+			return zygo.SexpNull, fmt.Errorf("failk: injected failure")
+		}
+		if len(args) == 0 {
+			return zygo.SexpNull, nil
+		}
+		return args[0], nil
+	})
+	lib.Eval(env, "(quote ("+strings.Join(QuotedSyms, " ")+"))", 10000)
+	var res lib.Result
+	for _, t := range texts {
+		res = lib.Eval(env, t, budget)
+		if res.Class != lib.OutValue {
+			break
+		}
+	}
+	tr := strings.Join(trace, ";")
+	switch res.Class {
+	case lib.OutValue:
+		return "V:" + RenderValue(res.Val, SnapDepth) + "|T:" + tr
+	case lib.OutError:
+		return "E:" + ErrClass(res.Err) + "|T:" + tr
+	case lib.OutBudget:
+		return "BUDGET"
+	}
+	return fmt.Sprintf("PANIC:%v", res.Panic)
+}
+
+// evalSource: a history (texts joined by Sep) or a single text in a fresh interpreter
+func evalSource(r *Runner, src string, failAt int) string {
+	if strings.Contains(src, Sep) {
+		return canon(runSteps(strings.Split(src, Sep), failAt))
+	}
+	return canon(r.RunSource(src, failAt))
+}
 
 const budget = 20000
 
@@ -85,11 +148,11 @@ func (x *runner) run(p *Program, src string, oracle string, nontriv bool, tags .
 	x.n++
 	if x.want != nil {
 		if x.want[x.n] {
-			x.kept[x.n] = keptCase{P: p, Src: src, Oracle: oracle, Typed: strings.Contains(src, "( func ")}
+			x.kept[x.n] = keptCase{P: p, Src: src, Oracle: oracle, Typed: strings.Contains(src, "( func ") || strings.Contains(src, Sep)}
 		}
 		return
 	}
-	obs := canon(x.r.RunSource(src, p.FailAt))
+	obs := evalSource(x.r, src, p.FailAt)
 	input := "oracle=" + encOracle(oracle) + " " + p.Prefix()
 	tags = append(tags, "outcome:"+strings.SplitN(obs, ":", 2)[0])
 	if oracle != "" {
@@ -146,6 +209,11 @@ func stream(a lib.Args, x *runner) {
 		src := gc.P.Source(st)
 		if gc.Route == RTyped {
 			src = typedSource(src, gc.Typed)
+		}
+		if gc.Split > 0 {
+			first := &Program{Forms: gc.P.Forms[:gc.Split]}
+			second := &Program{Forms: gc.P.Forms[gc.Split:]}
+			src = first.Source(st) + Sep + second.Source(st)
 		}
 		x.run(gc.P, src, gc.Oracle, gc.Nontriv, gc.Tags...)
 	})
@@ -217,7 +285,7 @@ func shrinkMode(a lib.Args, ids string, modelExe string) {
 		if !ok {
 			continue
 		}
-		impl := canon(r.RunSource(kc.Src, kc.P.FailAt))
+		impl := evalSource(r, kc.Src, kc.P.FailAt)
 		model, _ := m.Eval(kc.P)
 		rec := map[string]interface{}{"id": id, "source": kc.Src, "failat": kc.P.FailAt,
 			"input": "oracle=" + encOracle(kc.Oracle) + " " + kc.P.Prefix(),
@@ -268,8 +336,13 @@ func replay(a lib.Args) {
 	}
 	r := NewRunner(budget)
 	r.Fresh = true
-	obs, detail := r.RunSourceVerbose(rec.Source, rec.FailAt)
-	obs = canon(obs)
+	obs, detail := "", "(history of several evaluations)"
+	if strings.Contains(rec.Source, Sep) {
+		obs = evalSource(r, rec.Source, rec.FailAt)
+	} else {
+		obs, detail = r.RunSourceVerbose(rec.Source, rec.FailAt)
+		obs = canon(obs)
+	}
 	fmt.Printf("source: %s\nfailat: %d\nimplementation: %s\ndetail: %s\n", rec.Source, rec.FailAt, obs, detail)
 	out := lib.NewOut(a.Out)
 	out.Case(rec.Input, obs+"\t"+esc(rec.Source), true, "replay")
